@@ -32,7 +32,7 @@ func menuV1(w *chain.World) []chain.Action {
 func menuV2(w *chain.World) []chain.Action {
 	return []chain.Action{
 		chain.V2Form(1, 2, 100), chain.V2Form(0, 1, 0), chain.V2Form(2, 1, 129),
-		chain.V2Revise("pay"), chain.V2Revise("risk"), chain.V2Revise("grow"), chain.V2Revise("keys"), chain.V2Revise("heights"), chain.V2Revise("max"),
+		chain.V2Revise("pay"), chain.V2Revise("risk"), chain.V2Revise("grow"), chain.V2Revise("keys"), chain.V2Revise("heights"), chain.V2Revise("max"), chain.V2Revise("refund"),
 		chain.V2Renew("none"), chain.V2Renew("partial"), chain.V2Renew("full"), chain.V2Proof(), chain.V2Expire(),
 	}
 }
